@@ -330,7 +330,7 @@ def run_projection(spec):
 
 
 def const_specs(tier):
-    return [{"which": k} for k in ("Kb", "THzToEv", "EvTokJmol", "KB_C_macro", "Hartree", "Bohr", "AMU", "VaspToTHz", "PlanckConstant", "Avogadro")]
+    return [{"which": k} for k in ("Kb", "THzToEv", "EvTokJmol", "KB_C_macro", "Hartree", "Bohr", "AMU", "VaspToTHz", "PlanckConstant", "Avogadro", "EV", "Hbar", "Angstrom", "THz", "EVAngstromToGPa", "THzToCm")]
 
 
 def run_constants(spec):
@@ -346,7 +346,9 @@ def run_constants(spec):
     amu = 1.66053906660e-27
     ref = {"Kb": kB, "THzToEv": h * 1e12, "EvTokJmol": e * NA / 1000, "Hartree": 27.211386245988, "Bohr": 0.529177210903,
            "AMU": amu, "PlanckConstant": h, "Avogadro": NA,
-           "VaspToTHz": math.sqrt(e / 1e-20 / amu) / (2 * math.pi) / 1e12}
+           "VaspToTHz": math.sqrt(e / 1e-20 / amu) / (2 * math.pi) / 1e12,
+           "EV": e, "Hbar": h / (2 * math.pi), "Angstrom": 1e-10, "THz": 1e12, "EVAngstromToGPa": e / 1e-30 / 1e9,
+           "THzToCm": 1e12 / 299792458.0 / 100}
     k = spec["which"]
     if k == "KB_C_macro":
         src = open(REPO + "/c/phonopy.c").read()
